@@ -99,7 +99,7 @@ def in_effect(c, events, t, val):
 
 
 def populate_full(c, ns, n_notes=1, prefix='', section=True, tempo=True,
-                  groups=False):
+                  groups=False, shared_time=False):
   """Fills every repeated field of `ns` with symbolic content.
 
   Returns dict with the note views and the list of all (container name, index,
@@ -111,7 +111,15 @@ def populate_full(c, ns, n_notes=1, prefix='', section=True, tempo=True,
   tt = well_formed_total(c, ns, notes, name=P + 'tt')
   ev = []
 
+  shared = [None]
+
   def t(name):
+    # shared_time: all non-note events sit at one common symbolic instant, so
+    # that position case splits are not multiplied across event kinds
+    if shared_time:
+      if shared[0] is None:
+        shared[0] = c.real(P + 'ev_t', 0)
+      return shared[0]
     return c.real(P + name, 0)
 
   x = t('ts_t')
